@@ -31,3 +31,28 @@ Definition chunk (n : nat) (chunk_index n_chunks : Z) : list (nat * nat) :=
 
 Definition all_chunks (n : nat) (n_chunks : nat) : list (list (nat * nat)) :=
   map (fun k => chunk n (Z.of_nat k) (Z.of_nat n_chunks)) (seq 0 n_chunks).
+
+(* ---- vocabulary of the whole-function translations of distance_calculation.py (harness/src_functions.py, entries C07_...)
+   and the checked form of [chunk] they are linked to.  No proofs here.
+   An iterator over a generator is the list of the items it has not produced yet.
+   Error tags: 8 ValueError of islice (negative count), 9 AssertionError, 10 ZeroDivisionError. *)
+From Batchie Require Import Lib.Sexp.
+
+(* collections.deque(islice(it, k), maxlen=0): k items are consumed and thrown away (fewer if the iterator ends);
+   islice refuses a negative k *)
+Definition islice_drop {A : Type} (it : list A) (k : Z) : result (list A) :=
+  if k <? 0 then Err 8 else Ok (skipn (Z.to_nat k) it).
+(* list(islice(it, k)): the next k items (fewer if the iterator ends) *)
+Definition islice_take {A : Type} (it : list A) (k : Z) : result (list A) :=
+  if k <? 0 then Err 8 else Ok (firstn (Z.to_nat k) it).
+
+(* get_lower_triangular_indices_chunk for ALL integer arguments: the assert, the division by n_chunks, the two
+   islice calls may fail; otherwise it is the slice of the enumeration [chunk] takes (for n < 0 the enumeration is empty) *)
+Definition chunk_checked (n chunk_index n_chunks : Z) : result (list (Z * Z)) :=
+  if negb (chunk_index <? n_chunks) then Err 9
+  else if n_chunks =? 0 then Err 10
+  else
+    let '(s, e) := chunk_bounds (n_lower n) chunk_index n_chunks in
+    if s <? 0 then Err 8
+    else if e - s <? 0 then Err 8
+    else Ok (map (fun p => (Z.of_nat (fst p), Z.of_nat (snd p))) (slice (lower_tri (Z.to_nat n)) s e)).
